@@ -620,3 +620,57 @@ func looksBoolean(s string) bool {
 	s = trimSpace(s)
 	return strings.HasPrefix(s, "!") || predicateCall.MatchString(s) || s == "true" || s == "false"
 }
+
+// DependsOn reports whether the conjunction of the premises depends on the atom: some
+// assignment of the other atoms makes the conjunction true for one value of the atom and false
+// for the other. A path whose condition depends on a fact has consulted it, whether by a plain
+// branch or inside a compound test (x.IsColMajor() != lazy).
+func DependsOn(premises []*BExpr, atom *BExpr) bool {
+	if atom == nil || atom.Op != "atom" {
+		// a negated atom depends like the atom
+		if atom != nil && atom.Op == "not" {
+			return DependsOn(premises, atom.L)
+		}
+		return false
+	}
+	set := map[string]bool{}
+	for _, p := range premises {
+		for _, a := range p.Atoms() {
+			set[a] = true
+		}
+	}
+	if !set[atom.Atom] {
+		return false
+	}
+	var atoms []string
+	for a := range set {
+		if a != atom.Atom {
+			atoms = append(atoms, a)
+		}
+	}
+	sort.Strings(atoms)
+	if len(atoms) > 18 {
+		return false
+	}
+	eval := func(env map[string]bool) bool {
+		for _, p := range premises {
+			if !p.Eval(env) {
+				return false
+			}
+		}
+		return true
+	}
+	for m := 0; m < 1<<len(atoms); m++ {
+		env := map[string]bool{}
+		for i, a := range atoms {
+			env[a] = m&(1<<i) != 0
+		}
+		env[atom.Atom] = true
+		t := eval(env)
+		env[atom.Atom] = false
+		if t != eval(env) {
+			return true
+		}
+	}
+	return false
+}
